@@ -23,7 +23,7 @@ RULE = (
     "is imported after the use, or with the unresolved reference inside a directly / transitively imported "
     "module; must return Err (no exception, no tree) whose message chain names "
     "the missing type and the enclosing struct and whose rendered diagnostic cites the line of the "
-    "offending reference; a third of the forward / undeclared cases is repeated with a second fault behind it (a type nested 150..700 levels), judged on rejection only.  distinct = (mutation kind, container path of the offending reference, "
+    "offending reference; edit histories (one process parses a root, its module is rewritten on disk - a declaration dropped or an enum turned into a struct - and the root is parsed again); a third of the forward / undeclared cases is repeated with a second fault behind it (a type nested 150..700 levels), judged on rejection only.  distinct = (mutation kind, container path of the offending reference, "
     "kind of referenced declaration)."
 )
 ASSUMPTIONS = [
@@ -79,6 +79,15 @@ def gen_refschema(r):
             else:
                 t = wrap(r, r.choice([("u", r.randint(1, 64)), ("i", r.randint(1, 64)), ("f32",), ("f64",), ("str",)]))
             fields.append({"name": "f%d_%s" % (j, nm.lower()), "id": j, "type": t})
+            # field parameters next to the reference (they are evaluated around the type's resolution)
+            c = r.random()
+            if c < 0.2:
+                fields[-1]["range"] = (r.choice([0, -1.5, 2.25]), r.choice([10, 255, 1000.5]))
+            elif c < 0.3:
+                fields[-1]["unit"] = r.choice(["V", "rpm", "m/s"])
+            elif c < 0.35:
+                fields[-1]["range"] = (0, 1)
+                fields[-1]["unit"] = "x"
         decls.append({"kind": "struct", "name": nm, "fields": fields})
         types.append(("struct", nm))
     return decls
@@ -484,6 +493,70 @@ def same_basename_modules(run, i, tmp):
     run.case(sig="pos|same-basename-modules|%s" % order)
 
 
+def edited_module(run, i, tmp):
+    """One process, one path: an imported module is parsed, then EDITED on disk (a declaration removed, or
+    an enum turned into a struct of the same name), and the root is parsed again.  The second parse must see
+    the module as it is now: the dropped name is unresolved (Err naming it), the changed kind is tagged anew."""
+    r = run.rng("edited-module", i)
+    used = set()
+    en, st, user = long_ident(r, used), long_ident(r, used), long_ident(r, used)
+    d = os.path.join(tmp, "e%d" % i)
+    os.makedirs(d, exist_ok=True)
+    part_v1 = [{"kind": "enum", "name": en, "values": [("A" + en, 0), ("B" + en, 3)]},
+               {"kind": "struct", "name": st, "fields": [{"name": "p_" + st.lower(), "id": 0, "type": ("u", 8)}]}]
+    main = [{"kind": "mod", "path": ["part"]},
+            {"kind": "struct", "name": user, "fields": [{"name": "k_" + user.lower(), "id": 0, "type": wrap(r, ("enum", en))},
+                                                        {"name": "s_" + user.lower(), "id": 1, "type": wrap(r, ("struct", st))}]}]
+    main_text = S.print_schema(main)
+    open(os.path.join(d, "main.fcp"), "w").write(main_text)
+    edit = ["drop-struct", "drop-enum", "enum-becomes-struct"][i % 3]
+    if edit == "drop-struct":
+        part_v2 = part_v1[:1]
+        missing = (st, "s_" + user.lower())
+    elif edit == "drop-enum":
+        part_v2 = part_v1[1:]
+        missing = (en, "k_" + user.lower())
+    else:
+        part_v2 = [{"kind": "struct", "name": en, "fields": [{"name": "q_" + en.lower(), "id": 0, "type": ("i", 4)}]}, part_v1[1]]
+        main2 = copy.deepcopy(main)
+        main2[1]["fields"][0]["type"] = replace_leaf(main2[1]["fields"][0]["type"], ("struct", en))
+        missing = None
+    for step, part in (("first", part_v1), ("edited", part_v2), ("restored", part_v1)):
+        ptext = S.print_schema(part)
+        open(os.path.join(d, "part.fcp"), "w").write(ptext)
+        case = {"main": main_text, "module": ptext, "step": step, "edit": edit, "what": "the module file was rewritten between two parses of the same root in one process"}
+        try:
+            res, lg = PC.parse_file(os.path.join(d, "main.fcp"))
+        except BaseException as e:
+            run.violation("parse after a module edit raised %s: %s" % (type(e).__name__, str(e)[:200]), case)
+            return
+        run.count("parses_around_a_module_edit")
+        if step != "edited" or missing is None:
+            if res.is_err():
+                run.violation("root rejected (%s module): %r" % (step, res.err()), case)
+                return
+            walk_tree(run, res.unwrap(), case)
+            if step == "edited":
+                # the name is a struct now: the reference written as an enum reference in main must be tagged by the declaration's kind
+                tagged = [type(f.type).__name__ for s_ in res.unwrap().structs if s_.name == user for f in s_.fields]
+                leaf = res.unwrap().get_struct(user).unwrap().fields[0].type
+                while hasattr(leaf, "underlying_type"):
+                    leaf = leaf.underlying_type
+                if type(leaf).__name__ != "StructType":
+                    run.violation("after the module turned '%s' from an enum into a struct the reference is still tagged %s" % (en, type(leaf).__name__), case)
+                    return
+        else:
+            if res.is_ok():
+                run.violation("after '%s' was removed from the module the root is still accepted (stale module)" % missing[0], case)
+                return
+            if missing[0] not in repr(res.err()):
+                run.violation("error after the module edit does not name the type '%s': %s" % (missing[0], repr(res.err())[:300]), case)
+                return
+    run.count("module_edit_histories")
+    run.case(sig="edited-module|%s" % edit)
+    shutil.rmtree(d, ignore_errors=True)
+
+
 def run(run):
     import fcp.parser as P
 
@@ -500,6 +573,8 @@ def run(run):
                     module_cause(run, i, tmp)
                 if i % 4 == 3:
                     name_collision(run, i)
+                if i % 8 == 5:
+                    edited_module(run, i, tmp)
     finally:
         shutil.rmtree(tmp, ignore_errors=True)
         reach.stop()
